@@ -3024,8 +3024,14 @@ class RedunBackendDb(RedunBackend):
         """
         assert self.session
 
+        # Note: bind the value explicitly, so that a JSON null is compared as the value 'null'
+        # instead of becoming SQL NULL (which never compares equal).
         conditions = [
-            and_(Tag.key == key, Tag.value == sa_cast(value, JSON)) for key, value in tags
+            and_(
+                Tag.key == key,
+                Tag.value == sa_cast(sa.bindparam(None, value, type_=JSON()), JSON),
+            )
+            for key, value in tags
         ]
         if keys:
             conditions.append(Tag.key.in_(keys))
